@@ -51,6 +51,8 @@ use ractor_cluster::remote_actor_verif_hooks::ProxyProbe;
 ///   spawn                           a new probe (index = next)             -> ok
 ///   stop <t>                        the probe exits                        -> ok
 ///   status <dir> <t>                status of that side's proxy            -> Running|Stopped|…|none
+///   stopproxy <dir> <t>             `stop` on node dir's remote reference of probe t (not on the original) -> ok|none
+///   releaseheld <t>                 the original answers every request it holds, oldest first -> ok
 ///   cutafter <dir> <n>              the link dies after n more bytes in direction dir -> ok
 ///   cut                             the link dies now                      -> ok
 ///   fault <dir> read|write|flush    node dir's own end of the link reports an I/O error on its next read /
@@ -75,6 +77,8 @@ mod e2e {
         Call(u64, RpcReplyPort<u64>),
         #[rpc]
         Hold(u64, RpcReplyPort<u64>),
+        /// answer every held request, oldest first
+        Release,
     }
 
     pub fn reply_of(target: u64, req: u64) -> u64 {
@@ -87,7 +91,7 @@ mod e2e {
     }
     struct ProbeState {
         log: ProbeLog,
-        held: Vec<RpcReplyPort<u64>>,
+        held: Vec<(u64, RpcReplyPort<u64>)>,
     }
 
     impl Actor for Probe {
@@ -106,7 +110,12 @@ mod e2e {
                 }
                 ProbeMsg::Hold(req, port) => {
                     st.log.lock().unwrap().push(format!("h{req}"));
-                    st.held.push(port);
+                    st.held.push((req, port));
+                }
+                ProbeMsg::Release => {
+                    for (req, port) in st.held.drain(..) {
+                        let _ = port.send(reply_of(self.idx, req));
+                    }
                 }
             }
             Ok(())
@@ -748,6 +757,30 @@ mod e2e {
                     self.budgets[Self::dir(d)].store(n.parse().unwrap(), Ordering::SeqCst);
                     "ok".into()
                 }
+                ["stopproxy", d, t] => {
+                    // somebody stops the remote REFERENCE (not the original): `ActorCell::stop` on a pg member
+                    st.bump("e_stopproxy");
+                    let t: usize = t.parse().unwrap();
+                    match self.proxy(Self::dir(d), t) {
+                        None => "none".into(),
+                        Some(c) => {
+                            c.stop(None);
+                            "ok".into()
+                        }
+                    }
+                }
+                ["releaseheld", t] => {
+                    // the original answers every request it holds (sent locally, not through a proxy)
+                    st.bump("e_releaseheld");
+                    let t: usize = t.parse().unwrap();
+                    match self.probes.get(t) {
+                        None => "noprobe".into(),
+                        Some((a, _)) => match a.cast(ProbeMsg::Release) {
+                            Ok(()) => "ok".into(),
+                            Err(_) => "err".into(),
+                        },
+                    }
+                }
                 ["fault", d, kind] => {
                     st.bump("e_fault");
                     st.bump(&format!("e_fault_{kind}"));
@@ -1020,6 +1053,14 @@ mod e2e {
                             *seq += 1;
                         }
                     }
+                    cut = true;
+                }
+                7 if !cut && !live.is_empty() && rng.chance(1, 2) => {
+                    // somebody stops one remote REFERENCE (not its original)
+                    if rng.chance(2, 3) {
+                        ops.push("settle".into());
+                    }
+                    ops.push(format!("stopproxy {} {}", rng.pick(&dirs), rng.pick(&live)));
                     cut = true;
                 }
                 5 if !cut => {
